@@ -354,6 +354,24 @@ class Headers:
                     self._size = self.io.seek(0, os.SEEK_END) // self.header_size
                     return
                 previous_header_hash = header_hash
+        # damage to a header shows in the link of its successor, the tip has none: unless it is damaged in its
+        # previous-hash field it has to be measured against the chain rules itself (bits, proof of work)
+        tip = self.height
+        if tip >= max(start_height, 1):
+            below = [self._read(height) for height in (tip - 1, tip - 2) if height >= 0]
+            if all(len(raw) == self.header_size and raw != bytes(self.header_size) for raw in below):
+                # (an all-zero placeholder of a chunk that is not downloaded yet is nothing to validate against)
+                getter, self.chunk_getter = self.chunk_getter, None  # judge what is stored, fetch nothing
+                try:
+                    await self.validate_chunk(tip, self._read(tip))
+                except InvalidHeader:
+                    log.warning("Header file corrupted at height %s, truncating it.", tip)
+                    self.io.seek(tip * self.header_size, os.SEEK_SET)
+                    self.io.truncate()
+                    self.io.flush()
+                    self._size = self.io.seek(0, os.SEEK_END) // self.header_size
+                finally:
+                    self.chunk_getter = getter
 
     @classmethod
     def get_proof_of_work(cls, header_hash: bytes):
